@@ -185,7 +185,15 @@ public:
          and is_nothrow_constructible_v<detail::variant_alternative_selector_t<T, Ts...>, T>)
     ) -> variant&
     {
-        emplace<detail::variant_alternative_selector_t<T, Ts...>>(etl::forward<T>(t));
+        using alt_t        = detail::variant_alternative_selector_t<T, Ts...>;
+        constexpr auto idx = meta::index_of_v<alt_t, meta::list<Ts...>>;
+
+        // assign to the held object, if the selected alternative is already active
+        if (index() == idx) {
+            (*this)[index_v<idx>] = etl::forward<T>(t);
+        } else {
+            emplace<alt_t>(etl::forward<T>(t));
+        }
         return *this;
     }
 
